@@ -1467,6 +1467,10 @@ class _minmax(object):
                         cnst = _vecmin(cnst,f)
 
                 elif type(f) is variable or type(f) is _function:
+                    if type(f) is _function and not \
+                        ((self._ismax and f._isconvex()) or
+                        (not self._ismax and f._isconcave())):
+                        raise TypeError('unsupported argument type')
                     self._flist += [+f]
 
                 else:
